@@ -14,6 +14,10 @@ package main
 //                    RandomizeTransportParameters, a permutation of them
 //   tp-raw-verbatim  every raw/fake parameter of the spec (also one whose id collides with a typed
 //                    parameter, 0x0f in particular) is on the wire with exactly the spec's bytes
+//   key-share        the key_share entries on the wire are the spec's: groups in order, the
+//                    spec's key_exchange bytes where it gives them (GREASE share {0}, a supplied
+//                    public key), a generated non-empty key elsewhere (every dial; a third of
+//                    the derived specs carry such Data)
 //   tp-suppressed    no suppressed id (no GREASE id when 27 is listed) is on the wire
 //   ids-canonical    QUICSpec.TransportParameterIDs() == sort(canon(wire ids)), both when
 //                    called before the dial and after it
@@ -522,6 +526,172 @@ func fpDecode(fl fpFlight) (*fpObs, error) {
 	return o, nil
 }
 
+// fpHelloOnly: SCID, ClientHello, extension 57 and key shares of a first flight, using only
+// clienthellod's PACKET decoder (keys, header protection, AEAD, frame reader) and a CRYPTO
+// reassembly written here -- not clienthellod's ClientHello parser, which gives up on a
+// malformed key_share extension (the monitor must see exactly that).
+func fpHelloOnly(fl fpFlight) (*fpObs, error) {
+	if len(fl.Datagrams) == 0 {
+		return nil, fmt.Errorf("no datagram sent (dial: %s)", fl.DialErr)
+	}
+	o := &fpObs{}
+	type frag struct {
+		off  uint64
+		data []byte
+	}
+	var frags []frag
+	for i, d := range fl.Datagrams {
+		_, frames, err := clienthellod.DecodeQUICHeaderAndFrames(d)
+		if err != nil {
+			return nil, fmt.Errorf("datagram %d: %v", i, err)
+		}
+		if i == 0 {
+			dl := int(d[5])
+			sl := int(d[6+dl])
+			o.SCID = append([]byte{}, d[7+dl:7+dl+sl]...)
+		}
+		for _, f := range frames {
+			if c, ok := f.(*clienthellod.CRYPTO); ok {
+				frags = append(frags, frag{c.Offset, c.Data()})
+			}
+		}
+	}
+	sort.Slice(frags, func(i, j int) bool { return frags[i].off < frags[j].off })
+	var buf []byte
+	for _, f := range frags {
+		if f.off > uint64(len(buf)) {
+			return nil, fmt.Errorf("CRYPTO stream has a hole at %d", len(buf))
+		}
+		if end := f.off + uint64(len(f.data)); end > uint64(len(buf)) {
+			buf = append(buf, f.data[uint64(len(buf))-f.off:]...)
+		}
+	}
+	if len(buf) < 4 {
+		return nil, fmt.Errorf("CRYPTO stream of %d bytes", len(buf))
+	}
+	n := 4 + (int(buf[1])<<16 | int(buf[2])<<8 | int(buf[3]))
+	if len(buf) < n {
+		return nil, fmt.Errorf("ClientHello of %d bytes, %d sent", n, len(buf))
+	}
+	o.HelloRaw = buf[:n]
+	h, err := fpParseHello(o.HelloRaw)
+	if err != nil {
+		return nil, err
+	}
+	o.Hello = h
+	body, cnt := h.ext(57)
+	if cnt != 1 {
+		return nil, fmt.Errorf("%d quic_transport_parameters extensions", cnt)
+	}
+	if o.Wire, err = fpReadParams(body); err != nil {
+		return nil, fmt.Errorf("extension 57: %v", err)
+	}
+	return o, nil
+}
+
+// ---- key shares -------------------------------------------------------------------------
+
+type fpKeyShare struct {
+	Group uint16
+	Data  []byte
+}
+
+func fpKeySharesString(ks []fpKeyShare) string {
+	s := make([]string, len(ks))
+	for i, k := range ks {
+		if len(k.Data) > 8 {
+			s[i] = fmt.Sprintf("%04x/%d:%x..", k.Group, len(k.Data), k.Data[:8])
+		} else {
+			s[i] = fmt.Sprintf("%04x/%d:%x", k.Group, len(k.Data), k.Data)
+		}
+	}
+	return "[" + strings.Join(s, " ") + "]"
+}
+
+// fpWireKeyShares reads extension 51 of the ClientHello: client_shares<0..2^16-1> of
+// (group, key_exchange<1..2^16-1>). A zero-length key_exchange is read, not rejected.
+func fpWireKeyShares(h *fpHello) ([]fpKeyShare, error) {
+	body, cnt := h.ext(51)
+	if cnt != 1 {
+		return nil, fmt.Errorf("%d key_share extensions", cnt)
+	}
+	if len(body) < 2 || int(binary.BigEndian.Uint16(body)) != len(body)-2 {
+		return nil, fmt.Errorf("key_share list length field %x for %d bytes", body[:min(2, len(body))], len(body))
+	}
+	body = body[2:]
+	var out []fpKeyShare
+	for len(body) > 0 {
+		if len(body) < 4 {
+			return out, fmt.Errorf("trailing bytes %x", body)
+		}
+		g, l := binary.BigEndian.Uint16(body), int(binary.BigEndian.Uint16(body[2:]))
+		if len(body) < 4+l {
+			return out, fmt.Errorf("entry %04x claims %d bytes, %d left", g, l, len(body)-4)
+		}
+		out = append(out, fpKeyShare{g, append([]byte{}, body[4:4+l]...)})
+		body = body[4+l:]
+	}
+	return out, nil
+}
+
+func fpSpecKeyShareExt(sp *quic.QUICSpec) *tls.KeyShareExtension {
+	if sp == nil || sp.ClientHelloSpec == nil {
+		return nil
+	}
+	for _, e := range sp.ClientHelloSpec.Extensions {
+		if k, ok := e.(*tls.KeyShareExtension); ok {
+			return k
+		}
+	}
+	return nil
+}
+
+func fpSpecKeyShares(ext *tls.KeyShareExtension) []fpKeyShare {
+	var out []fpKeyShare
+	for _, k := range ext.KeyShares {
+		out = append(out, fpKeyShare{uint16(k.Group), append([]byte{}, k.Data...)})
+	}
+	return out
+}
+
+// fpAddKeyShareData gives the spec key shares that carry Data, as ClientHelloSpecs derived from
+// uTLS's Chrome parrots or from a capture do: a GREASE share {GREASE_PLACEHOLDER, {0}} in front,
+// and/or a caller-supplied 32-byte x25519 public key in the x25519 entry.
+func fpAddKeyShareData(r *u.Rng, ext *tls.KeyShareExtension) {
+	mode := r.Intn(3)
+	if mode != 1 {
+		ext.KeyShares = append([]tls.KeyShare{{Group: tls.GREASE_PLACEHOLDER, Data: []byte{0}}}, ext.KeyShares...)
+	}
+	if mode != 0 {
+		for i := range ext.KeyShares {
+			if ext.KeyShares[i].Group == tls.X25519 {
+				ext.KeyShares[i].Data = r.Bytes(32)
+			}
+		}
+	}
+}
+
+// fpCheckKeyShares: the wire's key_share entries are the spec's: same number, same groups in
+// order (a GREASE placeholder is some GREASE value), and where the spec gives key_exchange
+// bytes exactly those bytes; where it does not, a generated key (never empty). Returns "" if so.
+func fpCheckKeyShares(spec, wire []fpKeyShare) string {
+	if len(spec) != len(wire) {
+		return fmt.Sprintf("%d entries on the wire, %d in the spec", len(wire), len(spec))
+	}
+	for i := range spec {
+		if fpNorm16(spec[i].Group) != fpNorm16(wire[i].Group) {
+			return fmt.Sprintf("entry #%d has group %04x, the spec says %04x", i, wire[i].Group, spec[i].Group)
+		}
+		if len(spec[i].Data) > 0 && !bytes.Equal(spec[i].Data, wire[i].Data) {
+			return fmt.Sprintf("entry #%d (group %04x) carries key_exchange %x (%d bytes), the spec gives %x (%d bytes)", i, wire[i].Group, wire[i].Data[:min(len(wire[i].Data), 40)], len(wire[i].Data), spec[i].Data, len(spec[i].Data))
+		}
+		if len(wire[i].Data) == 0 {
+			return fmt.Sprintf("entry #%d (group %04x) has a zero-length key_exchange", i, wire[i].Group)
+		}
+	}
+	return ""
+}
+
 // ---- uTLS as oracle for claim (a) ----------------------------------------------------
 
 func fpGrease16(v uint16) bool { return v&0x0f0f == 0x0a0a && v>>8 == v&0xff }
@@ -754,10 +924,28 @@ func fpDialOnce(rep *fpReporter, sp *quic.QUICSpec, c fpDialCfg, dialNo int) *fp
 	if c.IDsBefore {
 		idsBefore = sp.TransportParameterIDs()
 	}
+	var specKeys []fpKeyShare
+	if kse := fpSpecKeyShareExt(sp); kse != nil {
+		specKeys = fpSpecKeyShares(kse)
+	}
 	fl, err := fpCapture(sp)
 	if err != nil {
 		rep.fail(k+"capture", "dial into the simulation failed: "+err.Error(), c.String())
 		return nil
+	}
+	// key shares first, from a decoding that does not depend on clienthellod's ClientHello parser
+	if ho, herr := fpHelloOnly(fl); herr == nil && specKeys != nil {
+		wk, kerr := fpWireKeyShares(ho.Hello)
+		d := ""
+		if kerr != nil {
+			d = "key_share extension does not parse: " + kerr.Error()
+		} else {
+			d = fpCheckKeyShares(specKeys, wk)
+		}
+		if d != "" {
+			rep.fail(kw+"key-share", "the key_share extension on the wire is not what the spec describes: "+d,
+				fmt.Sprintf("%s dial#%d spec key shares=%s wire key shares=%s", c.String(), dialNo, fpKeySharesString(specKeys), fpKeySharesString(wk)))
+		}
 	}
 	o, err := fpDecode(fl)
 	if err != nil {
@@ -917,6 +1105,9 @@ func runSimFingerprint(w *bufio.Writer, seed uint64, n int, args []string) {
 			}
 			if i%3 == 1 {
 				fpAddRawFamily(r, ext) // raw parameters with the ids of typed ones
+			}
+			if kse := fpSpecKeyShareExt(sp); kse != nil && i%3 == 2 {
+				fpAddKeyShareData(r, kse) // key shares that carry Data (GREASE share, supplied public key)
 			}
 			pre := fpSnapshot(ext)
 			c := fpDialCfg{Name: name, Randomize: r.Chance(2, 3), IDsBefore: r.Bool()}
